@@ -282,7 +282,15 @@ pub fn check(_ctx: &Ctx, input: &Input) -> CaseResult {
     // pass names anonymous items synthetically
     // the fourth pass replaces the first imported function by a local body
     // before emitting (its id stays, its index moves behind the imports)
-    for (do_gc, synthetic, replace) in [(false, false, false), (true, false, false), (false, true, false), (false, false, true)] {
+    // the fifth pass adds a module-defined memory and then an imported one
+    // through the API (the imported one is emitted first)
+    for (do_gc, synthetic, replace, add_mems) in [
+        (false, false, false, false),
+        (true, false, false, false),
+        (false, true, false, false),
+        (false, false, true, false),
+        (false, false, false, true),
+    ] {
         if replace && da.imp_funcs.is_empty() {
             continue;
         }
@@ -324,7 +332,25 @@ pub fn check(_ctx: &Ctx, input: &Input) -> CaseResult {
                 continue; // C18's business
             }
         }
+        let mut added: Option<(MemoryId, MemoryId)> = None;
+        if add_mems {
+            let r = guard("edit", || {
+                let a = m.memories.add_local(false, false, 7, None, None);
+                let (b, _) = m.add_import_memory("edit", "verif_mem", false, false, 5, None, None);
+                (a, b)
+            });
+            match r {
+                Ok(x) => added = Some(x),
+                Err(_) => continue,
+            }
+        }
         spy::ask_about_live(&shared, &m);
+        if let Some((a, b)) = added {
+            if let Some(ask) = shared.ask.lock().unwrap().as_mut() {
+                ask.mems.push((a, 0));
+                ask.mems.push((b, 0));
+            }
+        }
         let b = match wal::emit(&mut m) {
             Ok(b) => b,
             Err(f) => {
@@ -435,7 +461,25 @@ pub fn check(_ctx: &Ctx, input: &Input) -> CaseResult {
                 out.label("data-payloads-judged");
             }
         }
-        if replace {
+        if let Some((a, b)) = added {
+            for (id, want_initial, want_imported) in [(a, 7u64, false), (b, 5u64, true)] {
+                if let Some((_, got)) = ans.mems.iter().find(|(x, _)| *x == id) {
+                    let ty = db.mem_ty(*got);
+                    let imported = (*got as usize) < db.imp_mems.len();
+                    if ty.map(|t| t.initial) != Some(want_initial) || imported != want_imported {
+                        return Err(Failure::new(
+                            "emit-map:memory",
+                            format!(
+                                "[memories-added] the emit-time map puts the {} memory added through the API ({} pages) at index {}; the emitted binary has {:?} (imported: {}) there [{}]",
+                                if want_imported { "imported" } else { "module-defined" }, want_initial, got, ty, imported, p.origin
+                            ),
+                        ));
+                    }
+                }
+            }
+            out.label("mode:memories-added");
+        }
+        if replace || add_mems {
             // the structure changed on purpose: only the witnesses above apply
             continue;
         }
